@@ -104,7 +104,7 @@ add(Job('is_ipv4', 'harness/is_ipv4.c', enforce='is_ipv4', loops=True, timeout=1
         expect=['postcondition', 'loop_invariant_base', 'loop_invariant_step', 'loop_decreases', 'assigns'],
         functions=['is_ipv4'], files=['src/is_ipv4_ipv6.c'], assumptions=[A1, A5, A9],
         note='g_len <= 2^31-16; precondition from the call sites: the closing bracket follows the address'))
-add(Job('is_ipv6', 'harness/is_ipv6.c', enforce='is_ipv6', replace=['is_ipv4'], timeout=2400, reach=4, mem_est=36, mem_gb=36, solvers=('minisat2',),
+add(Job('is_ipv6', 'harness/is_ipv6.c', enforce='is_ipv6', replace=['is_ipv4'], timeout=850, reach=4, mem_est=24, mem_gb=30, solvers=('minisat2',),
         unwindset=[('is_ipv6_wrapped_for_contract_checking.0', 18)],
         expect=['postcondition', 'assigns', 'unwind'], functions=['is_ipv6'], files=['src/is_ipv4_ipv6.c'], assumptions=[A1, A5, A9],
         bounded='input length <= 45 bytes (fixed 46-byte object); within that bound the loop is fully unwound (18, unwinding assertion discharged), so the result is complete for all inputs up to 45 bytes and says nothing about longer ones',
@@ -229,6 +229,12 @@ for fn in ('eav_result_free', 'eav_free', 'eav_is_email'):
             replace=(CBS if fn == 'eav_is_email' else []), defines=['-DHAVE_LIBIDN2', '-DEAV_EXTRA'] + ([] if fn == 'eav_is_email' else ['-DJOB_' + fn]),
             timeout=600, reach=(4 if fn == 'eav_is_email' else 1), expect=['postcondition'], functions=[fn + ' (EAV_EXTRA build)'],
             files=['partial/idn2/eav.c', 'src/eav.c'], assumptions=[A2, A7]))
+
+add(Job('is_special_domain_Bq', 'harness/is_special_domain.c', enforce='is_special_domain', loops=True, defines=['-DJOB_B', '-DSP_LITE'], timeout=600, reach=4,
+        pre_unwind=SP_HELPER_LOOPS, safety_checks=False, extra_cbmc=['--no-standard-checks'], expect=['postcondition', 'assertion'],
+        functions=['is_special_domain (verdict after the cut, quick variant)'], files=['src/is_special_domain.c'], assumptions=[A4, A6, A9,
+            'quick variant of job B: the two loops before the cut are replaced by contracts that say nothing and the cut values proved in job A are installed; CBMC memory-safety instrumentation is off in this job (it is on in jobs A and B of the thorough tier)'],
+        note='decides the verdict structure in about a minute; the full jobs A and B (18 + 40 minutes) are in the thorough tier'))
 
 PROPS = {}
 
